@@ -168,10 +168,13 @@ func checkC07(c *c07Case) (msg string, nontrivial bool, labels []string) {
 func TestC07(t *testing.T) {
 	rapid.Check(t, func(rt *rapid.T) {
 		kind := lib.GenKind(rt)
+		if rapid.IntRange(0, 3).Draw(rt, "numericStore") == 0 {
+			kind = lib.KFloat // integer and float texts mixed: aggregates change kind between groups
+		}
 		pairs := lib.GenStore(rt, kind, lib.GenStoreSize(rt))
 		var st *lib.Stmt
 		for try := 0; ; try++ {
-			st = lib.GenSelect(rt, kind, pairs, lib.SelOpts{Aliases: true, Aggregate: 1, MinFields: 1})
+			st = lib.GenSelect(rt, kind, pairs, lib.SelOpts{Aliases: true, Aggregate: 1, MinFields: 1, MixedNumeric: true})
 			lib.ForceOrder(rt, st)
 			if len(st.Order) > 0 || try > 3 {
 				break
